@@ -11,7 +11,9 @@
    application [apply] (WorldlineTickPatchV1::apply_to_worldline_state: mutates in place, so a failing apply
    leaves a partially updated state: [AFail s]), the state root [root] (compute_state_root_for_warp_state), the
    commit hash (compute_commit_hash_v2) and the patch digest accessors.  No property of any of them is assumed.
-   One [store] models one worldline of a LocalProvenanceStore / ProvenanceService.
+   One [store] models one worldline of a LocalProvenanceStore / ProvenanceService (so the entry.worldline_id check of
+   advance_replay_state has no counterpart; entry.worldline_tick, the parent link and the checkpoint replay-metadata
+   checks added by /repo 90bd2fa are modelled).
    Ticks are u64 in the code; they are [N] here with the two u64 corner cases (checked_increment of the lookup
    tick, tx = tick+1) spelled out. *)
 From Coq Require Import List NArith Bool Lia.
@@ -31,7 +33,9 @@ Arguments AFail {St} s.
 Inductive rerr :=
 | EHistoryUnavailable (t : N) | EMissingPatch (t : N) | EApply (t : N) | EStateRoot (t : N) | ECommitHash (t : N)
 | EPatchDigest (t : N) | ETickOverflow (t : N) | EReceiptTx (t : N) | EReceiptDigest (t : N)
-| ECheckpointRoot (t : N) | EBaseWarp | EBaseBoundary.
+| ECheckpointRoot (t : N) | EBaseWarp | EBaseBoundary
+| EHistoryOther.   (* ReplayError::History(e) for e other than HistoryUnavailable: TickGap, MissingParentRef,
+                     CheckpointReplayMetadataMismatch (EntryWorldlineMismatch: one store = one worldline here) *)
 
 (* SeekError (playback.rs) *)
 Inductive serr :=
@@ -46,7 +50,7 @@ Inductive herr :=
 Definition map_replay_error (target : N) (e : rerr) : serr :=
   match e with
   | EHistoryUnavailable t | EMissingPatch t => SHistoryUnavailable t
-  | ETickOverflow _ => SHistoryUnavailable target
+  | ETickOverflow _ | EHistoryOther => SHistoryUnavailable target
   | EApply t => SApply t
   | EBaseWarp => SBaseWarp
   | EBaseBoundary => SBaseBoundary
@@ -102,6 +106,7 @@ Section Seek.
 
   (* ProvenanceEntry, replay-relevant fields *)
   Record entry := {
+    e_tick : N;                                 (* worldline_tick carried by the entry itself *)
     e_patch : option P;
     e_root : N; e_pdig : N; e_commit : N;       (* expected: HashTriplet *)
     e_parents : list N;                         (* parent commit hashes *)
@@ -163,7 +168,17 @@ Section Seek.
 
   (* body of the loop in advance_replay_state: the state is mutated in place, so the (possibly partially
      updated) state is returned together with the error *)
+  (* /repo 90bd2fa: a non-genesis entry must name the commit replayed just before it as a parent *)
+  Definition parent_linked (e : entry) (w : wstate) : bool :=
+    match last_opt (ws_hist w) with
+    | Some a => existsb (N.eqb (a_commit a)) (e_parents e)
+    | None => true
+    end.
+
   Definition advance_one (tick : N) (e : entry) (w : wstate) : wstate * option rerr :=
+    if negb (e_tick e =? tick) then (w, Some EHistoryOther)             (* HistoryError::TickGap *)
+    else if negb (parent_linked e w) then (w, Some EHistoryOther)       (* HistoryError::MissingParentRef *)
+    else
     match e_patch e with
     | None => (w, Some (EMissingPatch tick))
     | Some p =>
@@ -248,7 +263,17 @@ Section Seek.
         | Some expected =>
             if negb (hash =? expected) then inl (ECheckpointRoot t)
             else if negb (ws_root cw =? expected) then inl (ECheckpointRoot t)
-            else inr (cw, t)
+            (* /repo 90bd2fa: the replay metadata must describe exactly t ticks ending in the commit of entry t-1 *)
+            else if negb (lenN (ws_hist cw) =? t) then inl EHistoryOther
+            else if t =? 0 then inr (cw, t)
+            else match nthN (st_entries st) (t - 1) with
+                 | None => inl (EHistoryUnavailable (t - 1))
+                 | Some e =>
+                     match last_opt (ws_hist cw) with
+                     | Some a => if a_commit a =? e_commit e then inr (cw, t) else inl EHistoryOther
+                     | None => inl EHistoryOther
+                     end
+                 end
         end
     | None => inr (base_from_initial b, 0)
     end.
@@ -390,7 +415,9 @@ Section Seek.
        | None => false
        end.
 
-  (* PlaybackCursor::seek_to; returns the cursor as it is left, also on error *)
+  (* PlaybackCursor::seek_to; returns the cursor as it is left, also on error.  Since /repo commit 7e0a2d4 the forward
+     path advances a COPY of the cursor state and publishes it only on success: a rejected forward seek leaves the
+     cursor on its previous (verified) state; only `replay_base_validated` stays set. *)
   Definition seek_to (st : store) (b : wstate) (c : cursor) (target : N) : cursor * option serr :=
     if c_pin c <? target then (c, Some (SPinned target (c_pin c)))
     else if st_len st <? target then (c, Some (SHistoryUnavailable target))
@@ -411,7 +438,7 @@ Section Seek.
       | Some e => (c, Some (map_replay_error target e))
       | None =>
           match advance (st_entries st) (c_ws c) (c_tick c) target with
-          | (w, Some e) => (upd c (c_tick c) w true, Some (map_replay_error target e))
+          | (_, Some e) => (upd c (c_tick c) (c_ws c) true, Some (map_replay_error target e))
           | (w, None) => (upd c target w true, None)
           end
       end.
@@ -500,7 +527,7 @@ Section Seek.
      the previous tip, the retained receipt (tx = tick+1, digest = decision digest) and the outputs *)
   Definition record_entry (tick : N) (s' : St) (parent : option N) (p : P) (out : N) : entry :=
     let ps := match parent with Some c => [c] | None => [] end in
-    {| e_patch := Some p; e_root := root s'; e_pdig := p_digest_field p;
+    {| e_tick := tick; e_patch := Some p; e_root := root s'; e_pdig := p_digest_field p;
        e_commit := commit_hash (root s') ps (p_digest_field p) (p_policy p);
        e_parents := ps; e_receipt := Some (tick + 1, p_decision p); e_out := out |}.
 
@@ -520,6 +547,7 @@ Section Seek.
     end.
 End Seek.
 
+Arguments e_tick {P} e.
 Arguments e_patch {P} e.
 Arguments e_root {P} e.
 Arguments e_pdig {P} e.
